@@ -7,8 +7,6 @@ import (
 
 	"github.com/advancedclimatesystems/gonnx/internal/zzverif"
 	"github.com/advancedclimatesystems/gonnx/onnx"
-	"github.com/advancedclimatesystems/gonnx/ops"
-	"gorgonia.org/tensor"
 )
 
 func init() {
@@ -221,12 +219,7 @@ func H_C17_race(v *zzverif.T) {
 	go func() {
 		defer func() { _ = recover(); done <- true }()
 		for i := 0; i < 50; i++ {
-			z := ops.ZeroTensor(4, 2)
-			o := ops.OnesTensor(z)
-			for j := 0; j < 8; j++ {
-				z.(*tensor.Dense).Set(j, float32(i+j))
-				o.(*tensor.Dense).Set(j, float32(i-j))
-			}
+			zzAppWorksOnHelperTensors(i)
 		}
 	}()
 	// one more goroutine keeps making requests that are refused (missing input, wrong element type)
